@@ -600,6 +600,7 @@ func (e *Engine) execInstr(st *State, instr ssa.Instruction) {
 		addr := "(ref " + root + " pnil)"
 		st.private[root] = true
 		st.assumeZeroAt(addr, t)
+		st.typeFact(addr, in.Type())
 		set(in, Val{K: KAddr, T: addr, Ty: in.Type(), Root: root, NonNil: true})
 		if in.Comment != "" {
 			fr.names[in.Comment] = fr.regs[in]
